@@ -1468,6 +1468,10 @@ RECORDED_REFUSALS = (
     ("lattice-index", "failed to determine lattice index", ("matrix/intdense.rs", "matrix/intsparse.rs")),
     # snf-reduce-refusal: assert_eq!(det, self.h as i128, "generators {:?}", ..) in SmithNormalForm::reduce
     ("snf-reduce", "generators [", ("matrix/intdense.rs",)),
+    # the explicit refusals that fix e56a8cb put in place of a silent truncation in SparseMat::new (sparse path, forced large
+    # factor bases: an exponent outside i16 / a column index outside the matrix): a refusal, not a returned result
+    ("sparse-i16", "does not fit i16", ("matrix/intsparse.rs",)),
+    ("sparse-index", "outside matrix", ("matrix/intsparse.rs",)),
 )
 
 
